@@ -442,6 +442,46 @@ WITNESSES = [
     ("X13a", False, ("l", [("s", "q")]), ("list", "int")),
 ]
 
+# a cast builds a NEW container at every level (also when it is empty): the typed result and the dynamically typed source
+# share no storage, so nothing can enter a list or object through the other view without passing the boundary
+ISOLATION_PROGRAMS = [
+    ("fn main() { let names: [str] = []; let d: any = names; let nums = d as [int]; nums.push(42); println(names.len(), names, nums); }",
+     "0 [] [42]\n"),
+    ("fn main() { let xs = [1, 2]; let d: any = xs; let ys = d as [int]; ys.push(3); println(xs, ys); let zs: [int] = d; zs.push(4); println(xs, zs); }",
+     "[1, 2] [1, 2, 3]\n[1, 2] [1, 2, 4]\n"),
+    ("fn main() { let o = new { tags: [\"a\"], n: 1 }; let d: any = o; let p = d as { tags: [str], n: int }; p.tags.push(\"b\"); p.n = 2; println(o.tags, o.n, p.tags, p.n); }",
+     "[a] 1 [a, b] 2\n"),
+    ("fn main() { let t: [str] = []; let o = new { tags: t }; let d: any = o; let p = d as { tags: [str] }; p.tags.push(\"b\"); println(o.tags.len(), t.len(), p.tags.len()); }",
+     "0 0 1\n"),
+    ("fn main() { let inner: [int] = []; let e = [inner, [1]]; let d: any = e; let f = d as [[int]]; f[0].push(9); f[1].push(9); println(e, f); }",
+     "[[], [1]] [[9], [1, 9]]\n"),
+    ("fn main() { let inner: [int] = []; let q = ?inner; let d: any = q; let r = d as ?[int]; r.unwrap().push(5); println(q, r, inner); }",
+     "Some([]) Some([5]) []\n"),
+    ("fn main() { let inner: [int] = []; let d: any = inner; let a = d as [int]; let b = d as [int]; a.push(1); b.push(2); println(a, b, inner); }",
+     "[1] [2] []\n"),
+]
+
+
+def check_isolation(ctx):
+    go = core.go_lines("run", [f"(run (main {G.hexs(src)}))" for src, _ in ISOLATION_PROGRAMS], timeout=300)
+    for (src, want), g in zip(ISOLATION_PROGRAMS, go):
+        ctx.count(case_key=src, nontrivial=True)
+        rep = {"kind": "program", "source": src}
+        if g.startswith(("CRASH", "HANG")):
+            ctx.violation(dict(rep, go=g[:300]), f"cast-isolation program crashed the harness: {g[:120]}")
+            continue
+        parts = dict(p.split("=", 1) for p in g.split(" | "))
+        if not parts.get("A", "").startswith("ACCEPT"):
+            ctx.broken.append(f"cast-isolation program is not accepted by the analyzer: {parts.get('A', '')[:160]}")
+            continue
+        for be in ("VM", "TREE"):
+            w = parts.get(be, "").split()
+            kv = dict(p.split("=", 1) for p in w[1:] if "=" in p)
+            out = core.unhex(kv["out"]) if "out" in kv else ""
+            if not w or w[0] != "OK" or out != want:
+                ctx.violation(dict(rep, backend=be, go=parts.get(be, "")[:400]),
+                              f"{be}: the result of a cast shares storage with its source (or differs otherwise): prints {out!r}, expected {want!r}")
+
 
 def run_known(ctx):
     for e in core.load_known("C12"):
@@ -475,6 +515,7 @@ def run(ctx):
     wit = [(a, v, T, "witness:" + i) for i, a, v, T in WITNESSES]
     kinds = check_direct(ctx, wit + gen_pairs(ctx, 6000 if quick else 120000))
     ctx.coverage["direct_cast_cases_by_verdict"] = kinds
+    check_isolation(ctx)
     pstats = check_programs(ctx, gen_programs(ctx, 1200 if quick else 20000))
     ctx.coverage["program_cases"] = pstats
     hstats = check_host(ctx, gen_host(ctx, 500 if quick else 8000))
